@@ -87,6 +87,10 @@ def const_table(tree: ast.Module) -> Dict[str, ast.expr]:
             return lit(e.operand)
         if isinstance(e, ast.Call) and isinstance(e.func, ast.Name) and e.func.id == "frozenset" and len(e.args) == 1 and not e.keywords:
             return lit(e.args[0])
+        if isinstance(e, ast.Call) and isinstance(e.func, ast.Attribute) and isinstance(e.func.value, ast.Name) and e.func.value.id == "re" and e.func.attr == "compile" and e.args and all(lit(a_) for a_ in e.args) and not e.keywords:
+            return True
+        if isinstance(e, ast.Call) and isinstance(e.func, ast.Name) and e.func.id == "len" and len(e.args) == 1 and isinstance(e.args[0], ast.Constant) and isinstance(e.args[0].value, (str, bytes)):
+            return True
         if isinstance(e, ast.Dict):
             # a dispatch table: constant keys, values that are constants, names or tuples of those
             def val(v: ast.AST) -> bool:
@@ -430,7 +434,32 @@ class _Expr(ast.NodeTransformer):
                 vals.extend(v.values)
             else:
                 vals.append(v)
-        n.values = vals
+        # isinstance(x, A) or isinstance(x, B) -> isinstance(x, (A, B));  not isinstance(x, A) and not isinstance(x, B) likewise
+        def inst(e: ast.AST, neg: bool):
+            if neg:
+                if not (isinstance(e, ast.UnaryOp) and isinstance(e.op, ast.Not)):
+                    return None
+                e = e.operand
+            if isinstance(e, ast.Call) and isinstance(e.func, ast.Name) and e.func.id == "isinstance" and len(e.args) == 2 and not e.keywords and is_simple(e.args[0]):
+                return e
+            return None
+
+        neg = isinstance(n.op, ast.And)
+        merged: list = []
+        for v in vals:
+            c = inst(v, neg)
+            p_ = inst(merged[-1], neg) if merged else None
+            if c is not None and p_ is not None and dump(c.args[0]) == dump(p_.args[0]):
+                def types(e: ast.AST) -> list:
+                    return list(e.elts) if isinstance(e, ast.Tuple) else [e]
+
+                call = ast.Call(func=ast.Name(id="isinstance", ctx=ast.Load()), args=[c.args[0], ast.Tuple(elts=types(p_.args[1]) + types(c.args[1]), ctx=ast.Load())], keywords=[])
+                merged[-1] = ast.UnaryOp(op=ast.Not(), operand=call) if neg else call
+            else:
+                merged.append(v)
+        if len(merged) == 1:
+            return merged[0]
+        n.values = merged
         return n
 
     def visit_IfExp(self, n: ast.IfExp):
@@ -457,6 +486,29 @@ class _Expr(ast.NodeTransformer):
         f = n.func
         if isinstance(f, ast.Name) and f.id in SEQ_ARG_BUILTINS and n.args and isinstance(n.args[0], ast.Tuple) and len(n.args) == 1:
             n.args[0] = ast.List(elts=n.args[0].elts, ctx=ast.Load())
+        if isinstance(f, ast.Name) and f.id == "len" and len(n.args) == 1 and not n.keywords and isinstance(n.args[0], ast.Constant) and isinstance(n.args[0].value, (str, bytes)):
+            return ast.Constant(value=len(n.args[0].value))
+        # re.compile(P).meth(args)  ->  re.meth(P, args)
+        if (
+            isinstance(f, ast.Attribute)
+            and f.attr in ("search", "match", "fullmatch", "finditer", "findall", "sub", "subn", "split")
+            and isinstance(f.value, ast.Call)
+            and isinstance(f.value.func, ast.Attribute)
+            and isinstance(f.value.func.value, ast.Name)
+            and f.value.func.value.id == "re"
+            and f.value.func.attr == "compile"
+            and len(f.value.args) == 1
+            and not f.value.keywords
+            and not n.keywords
+            and len(n.args) <= (2 if f.attr in ("sub", "subn") else 1)
+        ):
+            return ast.Call(func=ast.Attribute(value=ast.Name(id="re", ctx=ast.Load()), attr=f.attr, ctx=ast.Load()), args=[f.value.args[0]] + list(n.args), keywords=[])
+        if isinstance(f, ast.Attribute) and f.attr in ("start", "end", "group", "span") and len(n.args) == 1 and not n.keywords and isinstance(n.args[0], ast.Constant) and type(n.args[0].value) is int and n.args[0].value == 0:
+            n.args = []
+        if isinstance(f, ast.Name) and f.id in ("list", "tuple", "set", "sorted", "frozenset") and len(n.args) == 1 and not n.keywords and isinstance(n.args[0], (ast.GeneratorExp, ast.ListComp)):
+            g = n.args[0]
+            if len(g.generators) == 1 and not g.generators[0].ifs and not g.generators[0].is_async and isinstance(g.elt, ast.Name) and isinstance(g.generators[0].target, ast.Name) and g.elt.id == g.generators[0].target.id:
+                n.args = [g.generators[0].iter]
         if isinstance(f, ast.Name) and f.id in ("min", "max") and len(n.args) > 1 and not n.keywords and not any(isinstance(a, ast.Starred) for a in n.args):
             n.args = [ast.List(elts=list(n.args), ctx=ast.Load())]
         if isinstance(f, ast.Name) and f.id in ("dict", "list") and not n.args and not n.keywords:
@@ -504,8 +556,43 @@ def _percent_to_fstring(fmt: str, arg: ast.expr) -> Optional[ast.expr]:
     return ast.JoinedStr(values=vals)
 
 
+def _truth(t: ast.expr) -> ast.expr:
+    """Rewrites that are valid where only the truth value of t matters: len(x) != 0 -> x, len(x) == 0 -> not x, bool(x) -> x,
+    applied through and/or/not."""
+    if isinstance(t, ast.BoolOp):
+        return ast.BoolOp(op=t.op, values=[_truth(v) for v in t.values])
+    if isinstance(t, ast.UnaryOp) and isinstance(t.op, ast.Not):
+        return ast.UnaryOp(op=ast.Not(), operand=_truth(t.operand))
+    if isinstance(t, ast.Call) and isinstance(t.func, ast.Name) and t.func.id == "bool" and len(t.args) == 1 and not t.keywords:
+        return _truth(t.args[0])
+    if isinstance(t, ast.Compare) and len(t.ops) == 1:
+        l_, r_, op = t.left, t.comparators[0], t.ops[0]
+
+        def is_len(e: ast.AST) -> bool:
+            return isinstance(e, ast.Call) and isinstance(e.func, ast.Name) and e.func.id == "len" and len(e.args) == 1 and not e.keywords
+
+        def is_zero(e: ast.AST) -> bool:
+            return isinstance(e, ast.Constant) and type(e.value) is int and e.value == 0
+
+        lenside = l_ if is_len(l_) and is_zero(r_) else r_ if is_len(r_) and is_zero(l_) else None
+        if lenside is not None:
+            x = lenside.args[0]
+            if isinstance(op, ast.NotEq):
+                return x
+            if isinstance(op, ast.Eq):
+                return ast.UnaryOp(op=ast.Not(), operand=x)
+            if isinstance(op, ast.Lt) and lenside is r_:  # 0 < len(x)
+                return x
+            if isinstance(op, ast.Gt) and lenside is l_:  # len(x) > 0
+                return x
+    return t
+
+
 def canon_test(t: ast.expr) -> Tuple[ast.expr, bool]:
     """(test', swapped): test' is the positive form of the condition, swapped says the branches change places."""
+    t2 = _truth(t)
+    if dump(t2) != dump(t):
+        t = _Expr().visit(t2)
     if isinstance(t, ast.UnaryOp) and isinstance(t.op, ast.Not):
         inner, sw = canon_test(t.operand)
         return inner, not sw
@@ -517,6 +604,21 @@ def canon_test(t: ast.expr) -> Tuple[ast.expr, bool]:
         return negate(t), True
     if isinstance(t, ast.Call) and isinstance(t.func, ast.Name) and t.func.id == "bool" and len(t.args) == 1 and not t.keywords:
         return canon_test(t.args[0])
+    # len(x) compared with 0 as a test is the truth value of x (anything with a length is true iff the length is not 0)
+    if isinstance(t, ast.Compare) and len(t.ops) == 1:
+        l_, r_, op = t.left, t.comparators[0], t.ops[0]
+
+        def is_len(e: ast.AST) -> bool:
+            return isinstance(e, ast.Call) and isinstance(e.func, ast.Name) and e.func.id == "len" and len(e.args) == 1 and not e.keywords
+
+        def is_zero(e: ast.AST) -> bool:
+            return isinstance(e, ast.Constant) and type(e.value) is int and e.value == 0
+
+        if is_len(r_) and is_zero(l_) and isinstance(op, ast.Lt):  # 0 < len(x)
+            return canon_test(r_.args[0])
+        if is_len(l_) and is_zero(r_) and isinstance(op, ast.Eq) or (is_len(r_) and is_zero(l_) and isinstance(op, ast.Eq)):
+            inner, sw = canon_test((l_ if is_len(l_) else r_).args[0])
+            return inner, not sw
     return t, False
 
 
@@ -603,11 +705,12 @@ class Normaliser:
             return body if test.value else orelse
         if not body and not orelse:
             return [] if call_free(test) else [ast.Expr(value=test)]
-        if not body and len(orelse) == 1 and isinstance(orelse[0], ast.If) and not orelse[0].orelse:
+        if not body and len(orelse) == 1 and isinstance(orelse[0], ast.If) and (not orelse[0].orelse or not orelse[0].body):
             inner = orelse[0]
+            itest, ibody = (inner.test, inner.body) if not inner.orelse else (negate(inner.test), inner.orelse)
             nt = negate(test)
-            vals = (nt.values if isinstance(nt, ast.BoolOp) and isinstance(nt.op, ast.And) else [nt]) + (inner.test.values if isinstance(inner.test, ast.BoolOp) and isinstance(inner.test.op, ast.And) else [inner.test])
-            return [ast.If(test=ast.BoolOp(op=ast.And(), values=list(vals)), body=inner.body, orelse=[])]
+            vals = (nt.values if isinstance(nt, ast.BoolOp) and isinstance(nt.op, ast.And) else [nt]) + (itest.values if isinstance(itest, ast.BoolOp) and isinstance(itest.op, ast.And) else [itest])
+            return [ast.If(test=ast.BoolOp(op=ast.And(), values=list(vals)), body=ibody, orelse=[])]
         # if a: (if b: X) with no else arms  ==  if a and b: X   (also when the inner statement is `if b: <nothing> else: X`)
         if not orelse and len(body) == 1 and isinstance(body[0], ast.If) and (not body[0].orelse or not body[0].body):
             inner = body[0]
@@ -1038,6 +1141,9 @@ class Normaliser:
             st.orelse = self.block(st.orelse)
             if isinstance(st.test, ast.Constant) and st.test.value:
                 st.test = ast.Constant(value=True)
+            else:
+                t_, sw_ = canon_test(st.test)
+                st.test = negate(t_) if sw_ else t_
             return [st]
         if isinstance(st, ast.Try):
             st.body = self.block(st.body)
@@ -2065,6 +2171,16 @@ def separate_scopes(fn: ast.AST) -> None:
     """The parameters and locals of a nested function are its own: give them names no enclosing scope uses, so that a
     nested function that happens to re-use (or stops re-using) a name of its parent compares equal."""
     k = 0
+    for lam in ast.walk(fn):
+        if isinstance(lam, ast.Lambda):
+            k += 1
+            ren_l = {x.arg: f"{x.arg}~L{k}" for x in lam.args.posonlyargs + lam.args.args + lam.args.kwonlyargs if "~" not in x.arg}
+            for x in lam.args.posonlyargs + lam.args.args + lam.args.kwonlyargs:
+                if x.arg in ren_l:
+                    x.arg = ren_l[x.arg]
+            for n in ast.walk(lam.body):
+                if isinstance(n, ast.Name) and n.id in ren_l:
+                    n.id = ren_l[n.id]
     for g in ast.walk(fn):
         if not isinstance(g, FuncNode) or g is fn:
             continue
@@ -2308,6 +2424,10 @@ def _rename_everywhere(tree: ast.AST, mapping: Dict[str, str]) -> None:
             pass
 
 
+# literal constants that are new in some other changed module of the package (set by Model before healing): a name imported from
+# there is replaced by its value like a local new constant
+EXTRA_CONSTS: Dict[str, ast.expr] = {}
+
 _REF_IDENTIFIERS: Optional[Set[str]] = None
 
 
@@ -2353,10 +2473,51 @@ def _detect_renames_once(tree: ast.Module, ref_tree: ast.Module) -> Dict[str, st
     new_keys = [k for k in cf if k not in rf]
     gone_keys = [k for k in rf if k not in cf]
     out: Dict[str, str] = {}
-    if not new_keys or not gone_keys:
-        return out
     ids = reference_identifiers()
     cc, rc = const_table(tree), const_table(ref[1])
+    # private attributes (self._x1 -> self._last_x1): a new attribute name that occurs nowhere in the reviewed sources stands
+    # for an attribute of the reviewed module that no longer occurs, if putting the old name back makes every function that
+    # mentions it equal to its reviewed form
+    cur_attrs = {n.attr for n in ast.walk(tree) if isinstance(n, ast.Attribute)}
+    ref_attrs = {n.attr for n in ast.walk(ref[1]) if isinstance(n, ast.Attribute)}
+    def self_stored(t: ast.AST) -> Set[str]:
+        return {n.attr for n in ast.walk(t) if isinstance(n, ast.Attribute) and isinstance(n.ctx, ast.Store) and isinstance(n.value, ast.Name) and n.value.id == "self"}
+
+    def only_on_self(t: ast.AST, a: str) -> bool:
+        return all(isinstance(n.value, ast.Name) and n.value.id == "self" for n in ast.walk(t) if isinstance(n, ast.Attribute) and n.attr == a)
+
+    # only attributes this package defines itself (stored on self), never attributes of foreign objects (os.path.abspath ...)
+    cs, rs = self_stored(tree), self_stored(ref[1])
+    new_attrs = sorted(a for a in cur_attrs - ref_attrs if a not in ids and a in cs and only_on_self(tree, a))
+    gone_attrs = sorted(b for b in ref_attrs - cur_attrs if b in rs and only_on_self(ref[1], b))
+    if new_attrs and gone_attrs and len(new_attrs) <= 4 and len(gone_attrs) <= 6:
+        cur_c = {k: v for k, v in cc.items() if k not in rc}
+        ref_c = {k: v for k, v in rc.items() if k not in cc}
+        for a in new_attrs:
+            users = [k for k in cf if k in rf and any(isinstance(n, ast.Attribute) and n.attr == a for n in ast.walk(cf[k][0]))]
+            if not users:
+                continue
+            for b in gone_attrs:
+                if b in out.values():
+                    continue
+                ok = True
+                for k in users:
+                    cand = copy.deepcopy(cf[k][0])
+                    for n in ast.walk(cand):
+                        if isinstance(n, ast.Attribute) and n.attr == a:
+                            n.attr = b
+                    try:
+                        if normal_form(cand, Ctx({}, cur_c, cf[k][2], set())) != normal_form(rf[k][0], Ctx({}, ref_c, rf[k][2], set())):
+                            ok = False
+                            break
+                    except Exception:
+                        ok = False
+                        break
+                if ok:
+                    out[a] = b
+                    break
+    if not new_keys or not gone_keys:
+        return out
     cur_consts = {k: v for k, v in cc.items() if k not in rc}
     ref_consts = {k: v for k, v in rc.items() if k not in cc}
     for nk in new_keys:
@@ -2400,6 +2561,8 @@ def heal_module(rel: str, src: str, tree: ast.Module) -> Tuple[ast.Module, List[
     cur_helpers = {k: cf[k][0] for k in new_keys}
     ref_helpers = {k: rf[k][0] for k in gone_keys}
     cur_consts = {k: v for k, v in cc.items() if k not in rc}
+    for k_, v_ in EXTRA_CONSTS.items():
+        cur_consts.setdefault(k_, v_)
     ref_consts = {k: v for k, v in rc.items() if k not in cc}
     mod_names_c = {k for k in cf if "." not in k}
     mod_names_r = {k for k in rf if "." not in k}
